@@ -3,6 +3,7 @@ package oauth2
 import (
 	"context"
 	"errors"
+	"maps"
 	"net/http"
 	"net/url"
 	"strings"
@@ -41,6 +42,12 @@ func (e *MetadataEndpoint) init() {
 }
 
 func (e *MetadataEndpoint) Get(ctx context.Context, args map[string]any) (ServerMetadata, error) {
+	// the endpoint is part of a mechanism shared by all rules and requests. The defaults
+	// are therefore applied to a copy and not to the shared object
+	local := *e
+	local.Headers = maps.Clone(e.Headers)
+	e = &local
+
 	e.init()
 
 	req, err := e.CreateRequest(ctx, nil, endpoint.RenderFunc(func(value string) (string, error) {
